@@ -142,6 +142,41 @@ route_build(const char *text, int raw, int again)
     jsgf_grammar_free(jsgf);
 }
 
+/* route m: ONE parsed grammar object, every other rule compiled first (generated group rules, unused rules, rules
+ * the compiler refuses), then the public rule: what an earlier compilation left behind in the jsgf_t must not
+ * reach a later one.  The result is recorded like a second compilation (via "rebuild"). */
+static void
+route_multi(const char *text)
+{
+    jsgf_t *jsgf = jsgf_parse_string(text, NULL);
+    jsgf_rule_t *pub;
+    jsgf_rule_iter_t *it;
+    fsg_model_t *fsg;
+
+    if (jsgf == NULL) {
+        emit_refused("rebuild", 0, 0);
+        return;
+    }
+    pub = jsgf_get_public_rule(jsgf);
+    for (it = jsgf_rule_iter(jsgf); it; it = jsgf_rule_iter_next(it)) {
+        jsgf_rule_t *r = jsgf_rule_iter_rule(it);
+        if (r == pub)
+            continue;
+        fsg = jsgf_build_fsg(jsgf, r, lmath, 1.0);
+        if (fsg)
+            fsg_model_free(fsg);
+    }
+    if (pub == NULL)
+        emit_refused("rebuild", 1, 0);
+    else if ((fsg = jsgf_build_fsg(jsgf, pub, lmath, 1.0)) == NULL)
+        emit_refused("rebuild", 1, 1);
+    else {
+        emit_fsg("rebuild", fsg, lmath, 0);
+        fsg_model_free(fsg);
+    }
+    jsgf_grammar_free(jsgf);
+}
+
 static void
 route_read(const char *text)
 {
@@ -265,6 +300,9 @@ main(int argc, char *argv[])
                     break;
                 case 't':
                     route_toprule(text);
+                    break;
+                case 'm':
+                    route_multi(text);
                     break;
                 default:
                     break;
